@@ -51,18 +51,19 @@ func Run() {
 		sum += v
 		cnt++
 	}
-	// values may still sit in b when quit wins: drain deterministically
+	// a value may still sit in b when quit wins: drain it. (No `continue` inside
+	// the select clause: yaegi mishandles that sequentially, which is not a
+	// concurrency matter.)
 	polled := 0
-	for {
+	for more := true; more; {
 		select {
 		case v := <-b:
 			sum += v - 100
 			cnt++
-			continue
 		default:
 			polled++
+			more = false
 		}
-		break
 	}
 	host.Emit(0, sum)
 	host.Emit(1, cnt)
